@@ -1,7 +1,7 @@
 (* Property C08 — every JWS the library produces decodes and verifies to what was signed.
    Pinned statements, for EVERY header serialisation oracle with parse (ser h) = Some h. *)
 From Coq Require Import List NArith ZArith Bool.
-From IdV Require Import Lib.Outcome Lib.Base64 Proofs.Base64Proofs Jose.Header Jose.Policy Jose.Jws Proofs.JwsProofs Doc.Doc Cred.Validate Cred.PresValidate Proofs.PresValidateProofs.
+From IdV Require Import Lib.Outcome Lib.Base64 Proofs.Base64Proofs Jose.Header Jose.Policy Proofs.PolicyProofs Jose.Jws Proofs.JwsProofs Doc.Doc Cred.Validate Cred.PresValidate Proofs.PresValidateProofs.
 Import ListNotations.
 Open Scope N_scope.
 
@@ -59,7 +59,25 @@ Section C08.
              /\ it_protected H it = p /\ it_unprotected H it = u
              /\ it_si H it = general_si H hview ser_header payload p0 p /\ it_sig H it = sg /\ it_claims H it = payload.
   Proof. exact (general_roundtrip H hview parse_header ser_header utf8 parse_ser ser_bytes). Qed.
+  (* the storage-backed signing call (JwkDocumentExt::create_jws) with ANY signature options: the header it assembles is accepted by the
+     compact encoder; the one refusal left is the character-set test on an attached unencoded payload; the token decodes to that header,
+     the payload and the signing input that was signed *)
+  Theorem C08_create_jws_roundtrip : forall o h payload sg,
+    hview h = create_jws_header o -> Forall (fun b => b < 256) payload -> Forall (fun b => b < 256) sg -> payload <> [] ->
+    let nd := if so_detached o then None else Some 0 in
+    (so_detached o = false -> so_b64 o = Some false -> charset_ok 0 payload = true) ->
+    exists e, enc_compact_new H hview ser_header payload h nd = Ok e /\
+      let tok := compact_into_jws e sg in
+      let det := match nd with None => Some (encode_if_b64 H hview payload (Some h)) | Some _ => None end in
+      exists it, decode_compact H hview parse_header tok det = Ok it
+        /\ it_protected H it = Some h /\ it_unprotected H it = None
+        /\ it_si H it = ce_si e /\ it_sig H it = sg /\ it_claims H it = payload.
+  Proof. exact (create_jws_roundtrip H hview parse_header ser_header parse_ser ser_bytes). Qed.
 End C08.
+(* for EVERY combination of signature options the assembled header passes the encoder's header policy *)
+Theorem C08_create_jws_header_valid : forall o, enc_compact (create_jws_header o) = true.
+Proof. exact create_jws_header_valid. Qed.
+Print Assumptions C08_create_jws_header_valid.
 
 (* CoreDocument::verify_jws (the model shared with C03): a token whose signature is valid under exactly one key km - the key of the method it was
    produced for - verifies only when the nonce is the configured one and the kid / configured method id resolves, IN THE CONFIGURED SCOPE, to a
@@ -86,6 +104,7 @@ Print Assumptions C08_base64_charset.
 Print Assumptions C08_compact_roundtrip.
 Print Assumptions C08_flattened_roundtrip.
 Print Assumptions C08_general_roundtrip.
+Print Assumptions C08_create_jws_roundtrip.
 Print Assumptions C08_verify_binds_method_nonce_scope.
 Print Assumptions C08_other_nonce_fails.
 Print Assumptions C08_scope_excluding_fails.
